@@ -87,11 +87,37 @@ program without these constructs computes a function of its inputs (Go's semanti
 `reflect.DeepEqual` / printed with `%v` are rendered deterministically (fmt sorts map keys) — is the TRUSTED step. -/
 theorem no_nondeterminism_sources : nondetSources = [] := by decide
 
-/-! ### side-effect freedom: nothing reachable from the inputs is written -/
-
 def wKind (w : String × Nat × String × String × String × String) : String := w.2.2.2.1
 def wFn (w : String × Nat × String × String × String × String) : String := w.2.2.1
 def wCls (w : String × Nat × String × String × String × String) : String := w.2.2.2.2.2
+
+/-! ### determinism / isolation: no state survives a call or is shared between concurrent calls -/
+
+/-- uses of package-level variables that are not plain reads and are harmless, each with its reason -/
+def knownSharedUses : List (String × String × String) :=
+  [("FromCypher", "translate.newlineToCommentReplacer *strings.Replacer.WriteString",
+      "strings.Replacer is documented safe for concurrent use by multiple goroutines; its only internal state is the lookup table built once (sync.Once) from the constructor arguments, so the output is a function of the arguments")]
+
+/-- **no_shared_mutable_state**: all mutable translation state hangs off the per-call Translator / Scope /
+IdentifierGenerator — the only other place a Go program can keep state between calls is a package-level variable, and in
+translate/, optimize/, format/, pgsql/, cypher/ and walk/ (function bodies and function literals of initialisers)
+* NO package-level variable is assigned, element-assigned, incremented, `delete`d / `clear`ed or has its address taken
+  (not even in an `init`);
+* every method with a pointer receiver called on one is a listed one with its reason (today: the `*strings.Replacer`);
+* a package-level slice / map / pointer never leaves through an alias (assigned, returned, stored, re-sliced, passed to a
+  call) except as an argument of a same-package function that only ranges over / measures that parameter.
+So no translation can observe what an earlier or a concurrent one did, except through the kind mapper (below). A memo
+table, a "last query" cache or a shared scratch buffer makes this obligation fail. -/
+theorem no_shared_mutable_state :
+    (sharedStateSites.filter (fun s => wKind s == "write" || wKind s == "address-taken")) = []
+    ∧ (sharedStateSites.filter (fun s => wKind s == "pointer-method-call")).all (fun s =>
+        knownSharedUses.any (fun u => u.1 == wFn s && u.2.1 == s.2.2.2.2.1 && u.2.2 != "")) = true
+    ∧ (sharedStateSites.filter (fun s => wKind s == "escapes")).all (fun s => wCls s == "arg-read-only") = true
+    ∧ sharedStateSites.all (fun s => ["write", "address-taken", "pointer-method-call", "escapes"].contains (wKind s)) = true
+    ∧ 10 ≤ packageVars.length ∧ packageVars.any (fun v => wCls v == "ref") = true := by decide +kernel
+
+/-! ### side-effect freedom: nothing reachable from the inputs is written -/
+
 
 /-- a struct field of type `map[string]any` is harmless when every map ever stored in it is fresh (make / literal) or
 the translation's own result map -/
@@ -199,15 +225,12 @@ theorem kinds_interned_atomically :
     Dawgs.Generated.C12Api.stringKindCacheCalls = ["LoadOrStore"] ∧ Dawgs.Generated.C12Api.stringKindMinters = ["StringKind"]
     ∧ Dawgs.Generated.C12Api.stringsToKindsUsesFactory = true := by decide
 
-/-- **assert_kinds_order**: either `AssertKinds` fills its result position-wise (`ids[idx] = s.Put(kinds[idx])`, the LIVE
-model `KM.assertKinds`, for which `assert_kinds_repeatable` holds — the state after hooks/C05-fix2.patch), or it has
-exactly the old known shape (`mapKinds` then `Put` for the missing kinds: found ids first, new ids after —
-`KM.assertKinds_old`, whose result order depends on the mapper's state, known finding
-C05:InMemoryKindMapper.AssertKinds:id-order-depends-on-state). -/
-theorem assert_kinds_order :
-    assertKindsPositionWise = true ∨
-    (assertKindsPositionWise = false ∧
-      (kindMapperMethods.filter (fun m => m.name == "AssertKinds")).all (fun m => m.calls == ["Put", "mapKinds"]) = true) := by decide
+/-- **assert_kinds_order**: `AssertKinds` fills its result position-wise (`ids[idx] = s.Put(kinds[idx])`) — the LIVE model
+`KM.assertKinds`, for which `assert_kinds_repeatable` holds (in /repo since 576f2e1). The old shape (`mapKinds` for the
+kinds found, then `Put` for the missing ones: found ids first, new ids after — `KM.assertKinds_old`) made the id order
+depend on the mapper's state (`assert_kinds_old_order_depends_on_state`, finding fixed); going back to it makes this
+obligation fail. -/
+theorem assert_kinds_order : assertKindsPositionWise = true := by decide
 
 /-- only `Put` writes the shared fields -/
 theorem kind_mapper_single_writer : (kindMapperMethods.filter (·.writes)).map (·.name) = ["Put"] := by decide
